@@ -11,6 +11,10 @@ OPER = {'add': lambda a, b: a + b, 'sub': lambda a, b: a - b, 'mul': lambda a, b
         'truediv': lambda a, b: a / b, 'floordiv': lambda a, b: a // b, 'mod': lambda a, b: a % b}
 
 
+import operator as _op
+IOPER = {'add': _op.iadd, 'sub': _op.isub, 'mul': _op.imul, 'truediv': _op.itruediv, 'floordiv': _op.ifloordiv, 'mod': _op.imod}
+
+
 def other_mode(r, o):
     """a configuration different from (r, o) for the operand whose config must NOT govern."""
     return ROUNDS[(ROUNDS.index(r) + 2) % 5], OVFS[1 - OVFS.index(o)]
@@ -244,7 +248,8 @@ def exec_AR(t, ia=False):
             Fxp.template = Fxp(None, True, 40, 7, rounding=r2, overflow=o2)
         try:
             if route == 'operator':
-                z = OPER[op](x, y)
+                # the in-place spelling of the operator on every third line (content-determined): `z = x; z += y`
+                z = IOPER[op](x, y) if (nx + ny + a[0]) % 3 == 0 else OPER[op](x, y)
             elif route == 'function':
                 z = FUNCS[op](x, y, sizing=pol, method=meth)
             elif route == 'numpy':
